@@ -60,23 +60,24 @@ struct Ghost {
   int32_t body_runs;
   uintptr_t stored_addr;    // where OnceFunction constructed its copy
   unsigned char seed;
-  uint32_t probe;           // symbolic byte index whose content is checked (forall bytes)
 };
 static Ghost G;
 
 // Callable of exactly N declared bytes and alignment A (sizeof = N rounded up to A).  Byte 0 is the
-// role marker, byte N-1 a second marker, every other byte carries the seed (see probed()).
+// role marker, byte N/2 carries the seed, byte N-1 an end marker.
 template <size_t N, size_t A>
 struct alignas(A) Payload {
   unsigned char b[N];
 
-  // Only three bytes carry state: the role (byte 0), an end marker (byte N-1) and the byte at the
-  // symbolic probe index G.probe -- since the probe is arbitrary this checks every byte, at O(1)
-  // solver cost per copy.
-  static bool probed() noexcept { return G.probe > 0 && G.probe < N - 1; }
+  // Only three bytes carry state: the role (byte 0), a middle byte (N/2, holds the seed) and an end
+  // marker (byte N-1, holds seed^0x5a); a relocation that drops a tail or a head of the object
+  // corrupts at least one of them.  (A symbolic probe index was tried and made the inline instances
+  // an order of magnitude slower.)
+  static constexpr size_t kMid = N / 2;
+  static constexpr bool probed() noexcept { return N > 2; }
   explicit Payload(unsigned char seed) noexcept {
     if (probed()) {
-      b[G.probe] = seed;
+      b[kMid] = seed;
     }
     b[N - 1] = (unsigned char)(seed ^ 0x5a);
     b[0] = kOrig;
@@ -84,7 +85,7 @@ struct alignas(A) Payload {
   }
   void copyFrom(const Payload& o) noexcept {
     if (probed()) {
-      b[G.probe] = o.b[G.probe];
+      b[kMid] = o.b[kMid];
     }
     b[N - 1] = o.b[N - 1];
     b[0] = o.b[0];
@@ -110,7 +111,7 @@ struct alignas(A) Payload {
     if (N > 1 && b[N - 1] != (unsigned char)(G.seed ^ 0x5a)) {
       return false;
     }
-    return !probed() || b[G.probe] == G.seed;
+    return !probed() || b[kMid] == G.seed;
   }
   void operator()() noexcept {
     ++G.body_runs;
@@ -272,7 +273,6 @@ struct Scenario {
     g_nblk = 0;
     g_bad_dealloc = 0;
     G.seed = vf_nondet_u8();
-    G.probe = vf_range_u32(0, (uint32_t)N);
     m0 = vf_malloc_count();
     f0 = vf_free_count();
 
